@@ -29,7 +29,7 @@ type c09Case struct {
 }
 
 // shape catalogue: body of type number self with targets b, c
-const c09Shapes = 15
+const c09Shapes = 16
 const c09RootKinds = 6
 
 func c09Shape(k int, self int, b, c string) (*model.Node, int) {
@@ -63,9 +63,12 @@ func c09Shape(k int, self int, b, c string) (*model.Node, int) {
 		return model.Obj(model.P("p", model.Obj(model.P("n", model.Ref(b))).With(model.RBool("optional", true)))), 1
 	case 13:
 		return model.Obj(model.P("p", model.Ref(b)), model.P("a", model.Arr(model.Ref(c)))), 2
-	default:
+	case 14:
 		// key shortcut whose VALUE references a type (@k is always part of the environment)
 		return model.Obj(model.PShort("@k", model.Ref(b))), 1
+	default:
+		// EMPTY object whose additionalProperties names a type
+		return model.Obj().With(model.RStr("additionalProperties", b)), 1
 	}
 }
 
@@ -256,6 +259,12 @@ func c09Run(c *mon.Ctx, unit int) {
 				s = c09Build(nt, bs, r.Intn(c09RootKinds))
 				if r.Chance(1, 6) && s.Root.Kind == model.KObject { // key shortcut next to the other keys
 					s.Root.Props = append(s.Root.Props, model.PShort("@k", model.Int("1")))
+				}
+				if r.Chance(1, 4) && s.Root.Kind == model.KObject {
+					// a type named only inside an or rule-set that carries another rule as well
+					s.Types = append(s.Types, &model.TypeDef{Name: "@int", Root: model.Int("5")})
+					s.Root.Props = append(s.Root.Props, model.P("u", model.Int("1").With(model.ROr(
+						model.OrSet(model.RStr("type", "@int"), model.RBool("nullable", true)), model.OrSet(model.RStr("type", "string"))))))
 				}
 			}
 			s.OptKeys = r.Chance(1, 8)
